@@ -83,6 +83,8 @@ def step (_ : Unit) (op impl : String) : Unit × DrvOut :=
         | _ => "FAIL unparsable implementation answer"
       ((), { model, spec })
     | none => ((), { model := "bad-op" })
+  | ["apijson", _, _] =>
+    ((), { model := "-", spec := if impl == "panic" then "FAIL the API JSON decoder panics on a hostile parameter value" else "ok" })
   | ["ipn", _] =>
     ((), { model := "-", spec := if impl.startsWith "diff" then "FAIL IP network does not survive the JSON round trip" else "ok" })
   | "conf" :: _ :: _ =>
